@@ -18,7 +18,15 @@ t1 = "\n".join(rows)
 rows = ["| seeded change | property | what it does / what it needs to manifest | checks run → verdict |", "|---|---|---|---|"]
 for f in sorted(glob.glob(os.path.join(V, "seeded", "*", "meta.json"))):
     m = json.load(open(f))
-    runs = "; ".join(f"{r['check']}: {'caught' + (' (tie/proof only, no failing input)' if (r.get('replay_excerpt') or {}) and isinstance(r.get('replay_excerpt'), dict) and r['replay_excerpt'].get('no_failing_input') else '') if r['caught'] else 'MISSED'}" for r in m.get("runs", []))
+    if m.get("harmless"):
+        quiet = [r["check"] for r in m.get("runs", []) if not r["caught"]]
+        loud = [r["check"] for r in m.get("runs", []) if r["caught"]]
+        hist = sorted({h["check"] for h in m.get("history", []) if h.get("caught")} - set(loud))
+        rows.append(f"| {m['id']} | none (behaviour-preserving) | {(m.get('summary') or '').replace('|', '/')[:300]} | quiet: {len(quiet)} checks"
+                    + (f"; ALARM (false): {', '.join(loud)}" if loud else "") + (f"; alarmed before the machinery was corrected: {', '.join(hist)}" if hist else "") + " |")
+        continue
+    missed_before = sorted({h["check"] for h in m.get("history", []) if h.get("caught") is False or h.get("no_failing_input")})
+    runs = ("(earlier: " + ", ".join(missed_before) + " missed or tie-only) " if missed_before else "") + "; ".join(f"{r['check']}: {'caught' + (' (tie/proof only, no failing input)' if (r.get('replay_excerpt') or {}) and isinstance(r.get('replay_excerpt'), dict) and r['replay_excerpt'].get('no_failing_input') else '') if r['caught'] else 'MISSED'}" for r in m.get("runs", []))
     summ = (m.get("summary") or "").replace("|", "/")[:260]
     need = (m.get("needs_to_manifest") or "")
     if isinstance(need, list):
